@@ -65,7 +65,7 @@ else
 fi
 for h in "$V"/harness/*.c; do
   b=$(basename "$h" .c)
-  compile "$h" "$B/obj/h_$b.o" & pids+=($!); OBJS="$OBJS $B/obj/h_$b.o"
+  compile "$h" "$B/obj/h_$b.o" --rename-section .text=t_harness & pids+=($!); OBJS="$OBJS $B/obj/h_$b.o"
 done
 fail=0
 for p in "${pids[@]}"; do wait "$p" || fail=1; done
